@@ -55,10 +55,18 @@ def check(run):
             nsub = 3 if run.quick else 7
             for s in range(nsub):
                 k += 1
-                case = c09.make_case(rng, ref, k * 7 + s, sizes=[H])
+                case = c09.make_case(rng, ref, k, sizes=[H])  # k runs over all tracer subsets, option flags and parameter styles
                 # particles: sizes from the same hazardous list
                 desc = dict(case['desc'])
                 run.progress(desc)
+                if k % 3 == 1 or ({'LRG', 'ELG'} <= set(case['tracers']) and k % 2 == 0):
+                    # stored randoms that are exactly 0 (also where the first tracer's slice has zero width, so that 0 sits on a slice
+                    # edge): whichever side such a tie falls, it must fall the same way in the count and the fill pass and for every thread count
+                    if len(case['halo']['hrandoms']) > 3:
+                        case['halo']['hrandoms'][::3] = 0.0
+                    if len(case['part']['prandoms']) > 3:
+                        case['part']['prandoms'][::3] = 0.0
+                    run.count('cases_with_exact_zero_randoms')
                 exp, info = hodref.reference_catalog(ref, case['halo'], case['part'], case['tracers'], case['params'], case['enable_ranks'], case['rsd'])
                 ngal = sum(len(e['id']) for e in exp.values())
                 base = None
